@@ -180,3 +180,68 @@ def split_ok(n, s, L) -> bool:
     if got is None:
         return False
     return [list(x) if isinstance(x, (list, tuple)) else x for x in got] == expected
+
+
+# ---------------------------------------------------------------- trace evaluation of plain-Python programs
+import re as _re
+import cohdl as _cohdl
+from cohdl import std as _std, Port as _Port, Unsigned as _Unsigned
+from . import c10_progs as PROGS
+
+
+def _make_entity(prog, a, b, c):
+    class C10E(_cohdl.Entity):
+        o = _Port.output(_Unsigned[16])
+
+        def architecture(self):
+            @_std.concurrent
+            def logic():
+                self.o <<= prog(a, b, c)
+
+    return C10E
+
+
+_LIT = _re.compile(r'buffer_o <= (?:unsigned\'\("([01]+)"\)|to_unsigned\((\d+), 16\))')
+
+
+def cohdl_eval(pi, a, b, c):
+    """-> int (literal the tracer computed) | None (rejected)"""
+    from vfw.core import reset_cohdl_state
+    try:
+        text = _std.VhdlCompiler.to_string(_make_entity(PROGS.BANK[pi], a, b, c))
+    except BaseException as e:
+        if isinstance(e, (KeyboardInterrupt, SystemExit)):
+            raise
+        reset_cohdl_state()
+        return None
+    m = _LIT.search(text)
+    if not m:
+        return ("no-literal", text[-400:])
+    return int(m.group(1), 2) if m.group(1) else int(m.group(2))
+
+
+def python_eval(pi, a, b, c):
+    try:
+        r = PROGS.BANK[pi](a, b, c)
+    except Exception:
+        return None
+    return r
+
+
+def trace_ok_concrete(pi, a, b, c) -> bool:
+    exp = python_eval(pi, a, b, c)
+    got = cohdl_eval(pi, a, b, c)
+    if got is None:
+        return True  # rejected: allowed by the statement (counted separately by the native census)
+    return got == exp
+
+
+def trace_ok(pi, a, b, c) -> bool:
+    a, b, c = conc(a, 0, 3), conc(b, 0, 3), conc(c, 0, 3)
+    from crosshair.tracers import NoTracing
+    with NoTracing():
+        return trace_ok_concrete(pi, a, b, c)
+
+
+def trace_describe(pi, a, b, c):
+    return f"{PROGS.BANK[pi].__name__}({a}, {b}, {c}): CPython {python_eval(pi, a, b, c)!r}; cohdl compile-time value {cohdl_eval(pi, a, b, c)!r}"
